@@ -160,7 +160,7 @@ def run_manager_tmode(report, tier, seed, l2state):
 def _l2_on_accept(state):
     def cb(gl):
         try:
-            duts = el.reshape_duts(l2.graph_cases(gl, el.LANE))
+            duts = el.reshape_duts(l2.graph_cases(gl, el.LANE, cap_per_dut=state.get("cap")))
         except KeyError as ex:          # a register of the model is not in the netlist any more: drift, not a failure
             state["drifts"].append(_projection_drift(gl.duts[0].spec, ex))
             return
@@ -176,7 +176,9 @@ def run_l2(report, tier, seed, state):
     (b) M-mode: model x Env x the clauses of the contract for managers with 4 - 6 sources; (c) drift notes; a drifting
     DUT class is explored against the L1 contract at the thorough tier's parameters."""
     report.add(l2_model={"module": "event/EventModel (+ csrbank/CsrBankModel)", "graph_duts_conformant": state["graph_duts"],
-                         "graph_edges_judged": state["graph_cases"], "run_duts": state["run_duts"],
+                         "graph_edges_judged": state["graph_cases"],
+                         "graph_edge_sample": ("every k-th edge, at most %d per DUT (all edges in the thorough tier)" % state["cap"])
+                         if state.get("cap") else "all edges", "run_duts": state["run_duts"],
                          "run_cycles_judged": state["run_cases"]})
     mcfgs = el.mmode_configs(tier)
     try:
@@ -236,7 +238,8 @@ def run_l2(report, tier, seed, state):
 def run(prop, report, tier, seed):
     _notes_findings(report)
     cfgs = fam.configs(tier)
-    l2state = {"graph_cases": 0, "graph_duts": 0, "run_duts": 0, "run_cases": 0, "drifts": [], "notes": []}
+    l2state = {"graph_cases": 0, "graph_duts": 0, "run_duts": 0, "run_cases": 0, "drifts": [], "notes": [],
+               "cap": 30000 if tier == "quick" else None}   # quick: stride sample of at most 30k edges per DUT
     report.assume("one CSR bus operation per cycle; 8-bit CSR bus; managers with 1-2 sources (every pair of kinds, one "
                   "and two managers) explored exhaustively in G-mode, managers with 3-6 sources of mixed kinds run "
                   "cycle by cycle in T-mode; the W1C clear may take 1..3 cycles from the bus write to the source's "
